@@ -188,8 +188,20 @@ LAST_ARGS = []  # the argument objects actually handed to the last call (aliasin
 LAST_EXC = [None]
 
 
+def scribble(a):
+    """the caller re-uses its buffers: whatever was handed to the previous call is overwritten before the next one"""
+    if isinstance(a, bytearray):
+        for i in range(len(a)):
+            a[i] ^= 0xFF
+    elif isinstance(a, list):
+        for x in a:
+            scribble(x)
+
+
 def apply_op(obj, op):
     """-> list of ints in the model's result format"""
+    for a in LAST_ARGS:
+        scribble(a)
     name, args = op[0], [copy_arg(a) for a in op[1:]]
     LAST_ARGS[:] = args
     LAST_EXC[0] = None
